@@ -1,6 +1,21 @@
 """Per-property driver configuration (level claimed, generation/non-triviality rule, assumptions)."""
 
 PROPS = {
+    "C05": {
+        "level": "exploration",
+        "workers": 16,
+        "engine": "E2-sim",
+        "technique": "model-based property testing: generated histories reach server states, generated needs are answered by the real process_sync/handle_need; oracle: harness model of held/partial/missing versions + the server's own crsql_changes as ground truth for live changes",
+        "level_text": ("server database states are reached, not fabricated (applied, overwritten, cleared, partially buffered incl. chunks without live changes, fully buffered but unapplied, "
+                       "missing versions of 1-3 actors); 5-19 generated Full/Partial needs within the advertised heads are served one at a time through the real process_sync + handle_need; per requested "
+                       "version the answer must be: chunks tiling 0..=largest live seq carrying exactly the live rows (held with live rows), an Empty (held, no live rows), exactly the buffered ranges "
+                       "and rows (partial), or silence (needed / beyond head); no Empty ever covers a version the server needs or holds partially; every change lies inside its changeset's range"),
+        "level_note": "trusts the harness' delivery bookkeeping (model) and cr-sqlite's crsql_changes view on the server as ground truth for 'live changes'; QUIC framing of serve_sync is bypassed (process_sync called in-process)",
+        "rule": ("generated: 2-3 nodes, 6-22 (quick) / 6-50 (thorough) history ops (C01 alphabet, biased to transactions and partial fetches), then 5-19 needs (server, origin, Full{from,len<=6} or "
+                 "Partial{version, 1-2 seq ranges}) mapped inside the server's advertised head. Non-trivial: one need touched >=2 version classes and a partially buffered or missing version. "
+                 "Distinct = hash of the case."),
+        "assumptions": ["adaptive chunk-size halving needs a slow peer (timing) and is not reached", "versions whose coverage is ambiguous between suppliers' declared last_seq are skipped (counted)"],
+    },
     "C02": {
         "level": "exploration",
         "workers": 16,
